@@ -444,7 +444,7 @@ func lockMutexMain(args []string) {
 			defer w.cleanup()
 			// the overtaken contender looks at the lock again before it removes anything (ReleaseIfStale): two holders here are
 			// not the recorded window of two contenders releasing the same stale lock
-			w.forceKey = "two-holders:contender-overtaken-after-judging-stale-removes-the-new-holders-lock"
+			// (a key of its own for this schedule was tried and withdrawn: see DESIGN §13.4)
 			if w.locks[9].TryLock(ctx) != nil {
 				return
 			}
